@@ -41,6 +41,10 @@ def run_case(spec):
     except ValueError as ex:
         return {'status': 'vacuous', 'outcome': 'reference n/a', 'ops': ops, 'detail': str(ex)}
     if r['status'] != 'optimal':
+        ss = str(r.get('solver_status', '')).lower()
+        if ref['status'] == 'optimal' and spec.get('solver') == 'eco' and 'infeasible' not in ss and 'unbounded' not in ss:
+            # ECOS gave up (numerical problems / iteration limit): no optimum is reported, the statement is conditional
+            return {'status': 'vacuous', 'outcome': 'ecos gave up', 'ops': ops, 'detail': ss}
         if ref['status'] == 'optimal':
             return {'status': 'violation', 'sig': tag + '|no optimum reported but one exists', 'ops': ops,
                     'detail': 'rsome status %s ; reference %.8g at %s' % (r.get('solver_status'), ref['value'], ref['dec'])}
